@@ -38,6 +38,12 @@ def jobs(tier):
     for k, (prelude, ops) in TWO_CB.items():
         out.append({"name": "twocb-%s-%d" % (k, 4 if tier == "quick" else 5), "length": 4 if tier == "quick" else 5,
                     "prelude": prelude, "ops": ops})
+    # the second callback is a one-shot one, subscribed while the item is already known (the directory's answer then
+    # carries no change): it must still fire at the next real change
+    out.append({"name": "oneshot-comp-4", "length": 4, "prelude": ["reg_comp", "sub_comp"], "oneshot2": True,
+                "ops": ["sub_comp2", "unreg_comp", "reg_comp", "unsub_comp"]})
+    out.append({"name": "oneshot-agent-4", "length": 4, "prelude": ["sub_agent"], "oneshot2": True,
+                "ops": ["sub_agent2", "unreg_agent", "reg_agent", "unsub_agent"]})
     return out
 
 
@@ -60,8 +66,13 @@ def run(eng, p):
     bench.run(max_steps=50)
     bench.fixed_schedule = False
     events = []
-    cbs = {k: (lambda evt, item, val, _k=k: events.append((_k, evt, item, val)))
-           for k in ("comp", "rep", "agent", "comp2", "rep2", "agent2")}
+    def _mk_cb(k):
+        def cb(evt, item, val):
+            events.append((k, evt, item, val))
+            if p.get("oneshot2") and k.endswith("2"):
+                subscribed[k] = False        # a one-shot callback is discarded by the library once it has been called
+        return cb
+    cbs = {k: _mk_cb(k) for k in ("comp", "rep", "agent", "comp2", "rep2", "agent2")}
     subscribed = {"comp": False, "rep": False, "agent": False, "comp2": False, "rep2": False, "agent2": False}
     ops_allowed = p.get("ops") or OPS
     snapshot = {}
@@ -99,7 +110,13 @@ def run(eng, p):
             unsub = {"comp": d1.unsubscribe_computation, "rep": d1.unsubscribe_replica, "agent": d1.unsubscribe_agent}[kind]
             item = "a2" if kind == "agent" else "c1"
             if op.startswith("sub_"):
-                sub(item, cbs[k2]); subscribed[k2] = True; snapshot[k2] = (view(d1, kind), len(events))
+                if p.get("oneshot2"):
+                    if subscribed[k2]:
+                        raise PathCut()
+                    sub(item, cbs[k2], one_shot=True)
+                else:
+                    sub(item, cbs[k2])
+                subscribed[k2] = True; snapshot[k2] = (view(d1, kind), len(events))
             else:
                 if not subscribed[k2]:
                     raise PathCut()
